@@ -204,44 +204,51 @@ structure Sys where
 inductive Who | client | server
   deriving DecidableEq, Repr
 
+/-- the connecting part of `Patron.serviceAll()`: `connector.serviceConnect()` succeeds at once and leaves a
+connection for the server to accept -/
+def connect (y : Sys) : Client × Server :=
+  if y.c.connected then (y.c, y.s) else ({ y.c with connected := true }, { y.s with pending := true })
+
+/-- `Patron.serviceRequests()`: one request at a time -/
+def Client.serviceRequests (c : Client) : Client :=
+  if !c.waited then
+    match c.queue with
+    | [] => c
+    | q :: rest => { c with queue := rest, latest := some q, tx := c.tx ++ [q], waited := true }
+  else c
+
+/-- `Patron.serviceResponse()`: receive what has arrived, parse while a response is awaited -/
+def Client.serviceResponse (c : Client) (arrived : List Item) : Client :=
+  let c := { c with rx := c.rx ++ arrived }
+  if c.waited && !c.stuck then
+    match feed c.cur c.rx with
+    | .done tag body rest =>
+      { c with cur := none, rx := rest, waited := false, latest := none,
+               responses := c.responses ++ [{ req := (c.latest.map (·.id)).getD 0, tag := tag, body := body }] }
+    | .more cur => { c with cur := cur, rx := [] }
+    | .stuck => { c with stuck := true }
+  else c
+
 /-- `Patron.serviceAll()` -/
 def stepClient (y : Sys) : Sys :=
-  let c := y.c
-  -- connect
-  let (c, s) := if c.connected then (c, y.s) else ({ c with connected := true }, { y.s with pending := true })
-  -- serviceRequests
-  let c := if !c.waited then
-      match c.queue with
-      | [] => c
-      | q :: rest => { c with queue := rest, latest := some q, tx := c.tx ++ [q], waited := true }
-    else c
+  let c := (connect y).1.serviceRequests
   -- connector.serviceTxes
-  let c2s := y.c2s ++ c.tx
-  let c := { c with tx := [] }
-  -- serviceResponse: receive, then parse if waited
-  let c := { c with rx := c.rx ++ y.s2c }
-  let c := if c.waited && !c.stuck then
-      match feed c.cur c.rx with
-      | .done tag body rest =>
-        { c with cur := none, rx := rest, waited := false, latest := none,
-                 responses := c.responses ++ [{ req := (c.latest.map (·.id)).getD 0, tag := tag, body := body }] }
-      | .more cur => { c with cur := cur, rx := [] }
-      | .stuck => { c with stuck := true }
-    else c
-  { c := c, s := s, c2s := c2s, s2c := [] }
+  { c := ({ c with tx := [] } : Client).serviceResponse y.s2c, s := (connect y).2, c2s := y.c2s ++ c.tx, s2c := [] }
+
+/-- `Valet.serviceConnects()` -/
+def Server.accept (s : Server) : Server :=
+  if s.pending then { s with pending := false, accepted := true, parsing := true } else s
+
+/-- `servant.serviceReceivesAllIx()`: only an accepted connection is read -/
+def Server.receive (s : Server) (wire : List Req) : Server × List Req :=
+  if s.accepted then ({ s with rx := s.rx ++ wire }, []) else (s, wire)
 
 /-- `Valet.serviceAll()` -/
 def stepServer (app : Req → AppResp) (y : Sys) : Sys :=
-  let s := y.s
-  -- serviceConnects
-  let s := if s.pending then { s with pending := false, accepted := true, parsing := true } else s
-  -- serviceReceivesAllIx
-  let (s, c2s) := if s.accepted then ({ s with rx := s.rx ++ y.c2s }, []) else (s, y.c2s)
-  let s := s.serviceReqs app
-  let s := s.serviceReps
+  let sw := y.s.accept.receive y.c2s
+  let s := (sw.1.serviceReqs app).serviceReps
   -- serviceTxesAllIx
-  let s2c := y.s2c ++ s.tx
-  { y with s := { s with tx := [] }, c2s := c2s, s2c := s2c }
+  { y with s := { s with tx := [] }, c2s := sw.2, s2c := y.s2c ++ s.tx }
 
 def step (app : Req → AppResp) (y : Sys) : Who → Sys
   | .client => stepClient y
